@@ -116,9 +116,9 @@ func (cce *staleIfErrorPolicy) CanStaleOnError(
 		if !valid {
 			continue
 		}
-		age := freshness.Age.Value + cce.clock.Since(freshness.Age.Timestamp)
+		age := AddSaturating(freshness.Age.Value, cce.clock.Since(freshness.Age.Timestamp))
 		// If stale-if-error is set, allow extra staleness
-		if age <= freshness.UsefulLife+dur {
+		if age <= AddSaturating(freshness.UsefulLife, dur) {
 			return true
 		}
 	}
